@@ -370,9 +370,11 @@ def search(ctx, S, M):
         if a[0] not in NOARG:
             cfg = copy.deepcopy(BASE)
             M[a[0]][2](cfg, copy.deepcopy(a[1]))
-            for _rep in range(5):
+            seen2 = set()
+            for _rep in range(14):              # the value pools are small: this enumerates them (incl. 'back to the original')
                 v2 = M[a[0]][0](ctx.rng, cfg)
-                if v2 is not None:
+                if v2 is not None and repr(v2) not in seen2 and len(seen2) < 5:
+                    seen2.add(repr(v2))
                     test([('obs',), a, ('obs',), (a[0], v2)], 'same-twice')
     for a in singles:
         for b in singles:
